@@ -386,6 +386,9 @@ func (m *Encoder) encodeStruct(v reflect.Value) error {
 	if t == decimalType {
 		return m.encodeDecimal(v)
 	}
+	if t == bigIntType {
+		return m.encodeBigInt(v)
+	}
 
 	if err := m.w.BeginStruct(); err != nil {
 		return err
@@ -456,6 +459,15 @@ func (m *Encoder) encodeDecimal(v reflect.Value) error {
 	}
 	d := v.Addr().Interface().(*Decimal)
 	return m.w.WriteDecimal(d)
+}
+
+// EncodeBigInt encodes a big.Int to the output writer as an Ion int.
+func (m *Encoder) encodeBigInt(v reflect.Value) error {
+	if v.CanAddr() {
+		return m.w.WriteBigInt(v.Addr().Interface().(*big.Int))
+	}
+	i := v.Interface().(big.Int)
+	return m.w.WriteBigInt(&i)
 }
 
 func (m *Encoder) encodeWithAnnotation(v reflect.Value, fields []field) error {
